@@ -14,6 +14,7 @@ import (
 	"fmt"
 	"os"
 	"sort"
+	"strings"
 	"time"
 
 	"github.com/semihalev/sdns/zzverif/vlib"
@@ -134,6 +135,20 @@ func main() {
 			to = 3400 * time.Second
 		}
 		res := r.Child("work", nil, selfExe(), args, []string{"C18_MODE=work", vlib.RaceEnv(pfx)}, to)
+		if !res.HasState && res.Output != "" {
+			// the workload killed the process: a runtime-detected concurrent map
+			// access inside the blocklist is a refutation, not a harness problem
+			if b, err := os.ReadFile(res.Output); err == nil {
+				txt := string(b)
+				if i := strings.Index(txt, "fatal error: concurrent map"); i >= 0 && strings.Contains(txt, "middleware/blocklist.") {
+					end := i + 3000
+					if end > len(txt) {
+						end = len(txt)
+					}
+					r.Violation("crash/concurrent-map-access-in-blocklist", "the concurrent API workload crashed the process: "+strings.SplitN(txt[i:], "\n", 2)[0], map[string]any{"kind": "crash", "log": txt[i:end]})
+				}
+			}
+		}
 		if !res.HasState {
 			r.Inconclusive(fmt.Sprintf("work child did not report (exit=%d timedOut=%v err=%v, log %s)", res.ExitCode, res.TimedOut, res.Err, res.Output))
 		} else if res.Output != "" {
